@@ -1308,14 +1308,19 @@ where
 			let mut batch = Vec::with_capacity(unchecked_batch.len());
 
 			for call in unchecked_batch {
-				if let Ok(req) = deserialize_with_ext::call::from_str(call.get(), &extensions) {
+				// Only JSON objects are requests; serde would also accept a struct that is encoded as an array.
+				let is_object = call.get().starts_with('{');
+
+				if let (true, Ok(req)) = (is_object, deserialize_with_ext::call::from_str(call.get(), &extensions)) {
 					batch.push(Ok(BatchEntry::Call(req)));
-				} else if let Ok(notif) = deserialize_with_ext::notif::from_str::<Notif>(call.get(), &extensions) {
+				} else if let (true, Ok(notif)) =
+					(is_object, deserialize_with_ext::notif::from_str::<Notif>(call.get(), &extensions))
+				{
 					batch.push(Ok(BatchEntry::Notification(notif)));
 				} else {
 					let id = match serde_json::from_str::<jsonrpsee_types::InvalidRequest>(call.get()) {
-						Ok(err) => err.id,
-						Err(_) => Id::Null,
+						Ok(err) if is_object => err.id,
+						_ => Id::Null,
 					};
 
 					batch.push(Err(BatchEntryErr::new(id, ErrorCode::InvalidRequest.into())));
